@@ -63,6 +63,10 @@ type Store struct {
 	faults []Fault
 	counts map[string]int
 	Log    []Call
+
+	// Fallback, when set, is returned for entity ids that are not registered (used by the
+	// crash check to exercise a service provider built from arbitrary metadata).
+	Fallback *serviceprovider.ServiceProvider
 }
 
 func newStore() *Store {
@@ -242,6 +246,9 @@ func (s *Store) GetEntityByID(_ context.Context, entityID string) (*serviceprovi
 		return nil, ErrInjected
 	}
 	sp, ok := s.sps[entityID]
+	if !ok && s.Fallback != nil {
+		return s.Fallback, nil
+	}
 	if !ok {
 		c.Err = "not found"
 		return nil, fmt.Errorf("service provider %q not registered", entityID)
